@@ -890,7 +890,7 @@ PROPS = {
     "C07": {
         "level": "proof",
         "level_prefix": "Partial proof -- contracts discharged without bound on the mechanisms named below, not the whole statement (bounded stand-ins and what is left out are listed): ",
-        "units": ["zfsource"],
+        "units": ["zfsource", "zfinherit"],
         "extra_searches": [
             {"bin": "c07_search_layouts", "crate": "replay_net", "release": True,
              "what": "the second half of the statement, as a metamorphic exploration: a 9-record zone (SOA, NS, A, AAAA, CNAME, MX, TXT, SRV) written in "
@@ -927,7 +927,7 @@ PROPS = {
             {"bin": "d46_scan_decimal_overflow", "crate": "replay_net", "finding": "D46"},
             {"bin": "d47_unknown_marker_swallows_delimiter", "crate": "replay_net", "finding": "D47"},
         ],
-        "explanation": "the totality half of the statement, for the tokenizer every zone-file read goes through "
+        "explanation": "Unit zfinherit (zonefile/inplace.rs, real text of EntryScanner::{scan_owner_record, scan_record, scan_at_record, _scan_entry} and Zonefile::{set_origin, set_default_class}): the inheritance rules behind \"inherited versus explicit owner, TTL and class produce the same records\" -- a record's class is the one written on its line, else the last one stated (an error if none ever was; in validating mode a class other than the last one is refused), and only the first statement is remembered; its TTL is the one written (which later lines then inherit), else the $TTL in effect, else the last TTL stated; an indented line takes the owner of the last line that stated one and leaves it alone, a line with an owner (or `@`, which needs an origin) sets it; nothing else of what later lines inherit changes, and an entry that is not a record changes none of it. the totality half of the statement, for the tokenizer every zone-file read goes through "
                        "(zonefile/inplace.rs::SourceBuf, real text): next_item (white space, parentheses, comments, line ends, quotes) "
                        "terminates on every buffer, never reads outside it, its parenthesis counter never underflows and its "
                        "assert!(token completely read) is a precondition proved at every extracted call site; _next_symbol / "
@@ -951,7 +951,7 @@ PROPS = {
                        "unsafe str::from_utf8_unchecked in scan_ascii_str holds (only octets below 128 are handed over).",
         "not_covered": "Layout independence beyond the metamorphic search c07_search_layouts (a relation between two runs on two files; no contract on a single call expresses it), "
                        "the rest of EntryScanner (scan_entry, scan_symbols / scan_entry_symbols (FnMut closures), scan_charstr_entry; what scan_octets / scan_ascii_str return is not specified beyond safety; convert_token / convert_entry / append_data are under contract: in-place safety, converter protocol, termination of the token loop -- but not which symbols a token consists of), record-data "
-                       "scan() functions, $ORIGIN/$TTL/class inheritance, error positions. Symbol::from_slice_index is assumed to "
+                       "scan() functions, scan_ctr (closures over str) and Zonefile::next_entry (applies $ORIGIN / $TTL entries; the scanner holds the zone file by mutable reference inside a temporary), error positions. Symbol::from_slice_index is assumed to "
                        "return an end position inside the buffer (its own totality is not proved).",
         "assumptions": [
             "bytes::BytesMut is modelled as an octet sequence of at most isize::MAX octets (get, split_to, advance)",
